@@ -116,7 +116,9 @@ def r1(chk, prog, f):
                             events.append((i, "load" if k > 0 else "store"))
         in_loop_stores = [i for i, k in events if k == "store" and i.block in body]
         in_loop_loads = [i for i, k in events if k == "load" and i.block in body]
-        sig = "local %s" % a.res
+        # a local whose address is handed to a callee is named by that role (the name of the variable may change)
+        handed = sorted({i.callee for i, k in events if i.op == "call" and i.callee and not i.callee.startswith("llvm.")})
+        sig = ("local state handed by address to %s" % ", ".join(handed)) if handed else ("local %s" % a.res)
         if not in_loop_stores:
             chk.proven(rid, f.name, sig, a.locstr(), "not written inside the character loop")
             continue
